@@ -62,7 +62,7 @@ pub async fn run_conn_h2(
                 return obs;
             }
         };
-        match hyper::client::conn::http2::handshake::<_, _, Full<Bytes>>(TokioExecutor::new(), TokioIo::new(stream)).await {
+        match hyper::client::conn::http2::handshake::<_, _, Full<Bytes>>(TokioExecutor::new(), TokioIo::new(crate::client_tls::SpinGuard::new(stream, world.clone()))).await {
             Ok((s, conn)) => (s, tokio::spawn(async move { let _ = conn.await; })),
             Err(e) => {
                 for x in obs.h2_err.iter_mut() {
